@@ -1607,9 +1607,11 @@ class NumpyDocstring(GoogleDocstring):
                 push_item(current_func, rest)
                 current_func = None
                 if "," in line:
-                    for func in line.split(","):
-                        if func.strip():
-                            push_item(func, [])
+                    funcs = [func for func in line.split(",") if func.strip()]
+                    for func in funcs[:-1]:
+                        push_item(func, [])
+                    # indented lines that follow describe the names of this line
+                    current_func = funcs[-1] if funcs else None
                 elif line.strip():
                     current_func = line
             elif current_func is not None:
